@@ -156,7 +156,7 @@ func (r *ref) finish(callGen int32, ok bool, o *refOut) {
 // Sequential bookkeeping on top of the reference machine: the calls in flight, in admission order.
 // ---------------------------------------------------------------------------------------------
 
-const maxRunning = 12
+const maxRunning = 16
 
 type seqRef struct {
 	ref
